@@ -26,7 +26,7 @@ def run_one(prop, tier, seed, src=None, write=True, out=sys.stdout):
         return 2, None
 
     def fn(ctx, s):
-        mod.check(ctx, s)
+        core.run_check(mod, ctx, s)
         if tier == "thorough":
             from . import selfval
 
